@@ -14,6 +14,8 @@ struct QB : StatementBuilder {
     explicit QB(Document& d): StatementBuilder{d} {}
     void property() override { if (fragments.size()) { query = fragments[0]; fragments.pop(); } }
     void strategy_declaration(const char*) override {}
+    void subjection(const char*) override {}
+    void imitation(const char*) override {}
     variable_t* addVariable(type_t, const std::string&, expression_t, position_t) override { throw NotSupportedException("addVariable"); }
     bool addFunction(type_t, const std::string&, position_t) override { throw NotSupportedException("addFunction"); }
 };
@@ -44,8 +46,9 @@ template <typename P>
 static void roundtrip(Ctx& cx, const std::string& text0, P parse_fn)
 {
     size_t n0 = cx.nerr();
-    expression_t e0 = parse_fn(text0);
+    expression_t e0;
     vf_note(text0.c_str());
+    try { e0 = parse_fn(text0); } catch (std::exception& ex) { vf_note(ex.what()); vf_assert(false, "source-text-accepted"); return; }
     if (cx.nerr() != n0 || e0.empty()) { note_errors(cx.doc, n0); vf_assert(false, "source-text-accepted"); return; }
     std::string s1;
     bool threw = false;
@@ -53,7 +56,8 @@ static void roundtrip(Ctx& cx, const std::string& text0, P parse_fn)
     vf_assert(!threw, "printing-does-not-throw");
     if (threw) return;
     vf_note(s1.c_str());
-    expression_t e1 = parse_fn(s1);
+    expression_t e1;
+    try { e1 = parse_fn(s1); } catch (std::exception& ex) { vf_note(ex.what()); }
     bool accepted = cx.nerr() == n0 && !e1.empty();
     if (!accepted) note_errors(cx.doc, n0);
     vf_assert(accepted, "printed-text-accepted");
@@ -127,6 +131,9 @@ extern "C" void harness_queries()  /* vf: bounds=query_forms_of_the_property(A[]
     int form = vf_pick("form", 36);
     static const char* BOUND[] = {"<=10", "#<=10", "x<=10"};
     std::string bnd = BOUND[vf_pick("bound", 3)], runs = vf_pick("!runs", 2) ? "; 7" : "", pq = vf_pick("!box", 2) ? "[]" : "<>", cmp = vf_pick("!le", 2) ? "<=" : ">=";
+    // file names as they are written in a query: a backslash is written twice (the lexer's string token cannot contain a double quote at all)
+    static const char* FNAMES[] = {"path", "dir/strategy.json", "C:\\\\dir\\\\s.json", "a b", "tail\\\\"};
+    std::string fname = FNAMES[(form == 28 || form == 29) ? vf_pick("!file_name", 5) : 0];
     std::string t;
     switch (form) {
     case 0: t = "A[] p && a < 3"; break;
@@ -157,8 +164,8 @@ extern "C" void harness_queries()  /* vf: bounds=query_forms_of_the_property(A[]
     case 25: t = "maxE(a + b)[" + bnd + "] {a} -> {dd} : <> p"; break;
     case 26: t = "minPr[" + bnd + "] : <> p"; break;
     case 27: t = "maxPr[" + bnd + "] : <> q && a > 1"; break;
-    case 28: t = "strategy S = loadStrategy{a}->{dd}(\"path\")"; break;
-    case 29: t = "saveStrategy(\"path\", S)"; break;
+    case 28: t = "strategy S = loadStrategy{a}->{dd}(\"" + fname + "\")"; break;
+    case 29: t = "saveStrategy(\"" + fname + "\", S)"; break;
     case 30: t = "Pr (<>[0,10] p)"; break;
     case 31: t = "Pr ([] [0,10] (p U[1,2] q))"; break;
     case 32: t = "A[] forall (k : int[0,3]) arr[k] < 5"; break;
